@@ -201,11 +201,11 @@ type bfsNode struct {
 
 func histBFS(c *core.Ctx, sb *sandbox, res *core.ShardResult, wl *core.WLog) {
 	shape := histShapes[c.Shard%len(histShapes)]
-	maxTrans := c.Q(35000, 2000000)
+	maxTrans := c.Q(25000, 2000000)
 	if len(shape.Tasks) >= 3 {
 		// (three tasks: seven request sets, twice with --force, plus failures - the state space is far
 		// larger and the short histories that matter come first in a breadth-first search)
-		maxTrans = c.Q(30000, 600000)
+		maxTrans = c.Q(20000, 600000)
 	}
 	values := []string{"v1", ""} // an edit, and a file that exists but is empty
 	if c.Thorough() {
